@@ -619,6 +619,13 @@ def standard_replay(ctx, path, prop):
     obj = json.load(open(path))
     rep = obj.get("replay", obj)
     case = rep.get("case")
+    if rep.get("kind") == "pre-dispatch-expr" and rep.get("expression"):
+        rc, out, err = common.run_impl("c09_expr_impl.py", input_text=json.dumps([rep["expression"]]), timeout=120)
+        real, ref = json.loads(out.strip().splitlines()[-1])[0]
+        ok = real == ref or (real[0] == "e" and ref[0] == "e")
+        print("replay: pre_dispatch=%r joblib %s, Python %s => %s" % (rep["expression"], real, ref,
+                                                                     "property holds on this input" if ok else "VIOLATED"))
+        return 0 if ok else 1
     if case and case.get("sync"):
         import m1s_common
         return m1s_common.replay(case, prop)
@@ -1088,6 +1095,108 @@ def sync_backend(ctx, quick, prop, profile, scale=1.0):
     return m1s_common.check(ctx, prop, profile, quick, scale)
 
 
+def pre_dispatch_stage(ctx, quick, prop):
+    """joblib._utils.eval_expr (string values of pre_dispatch) against Python's own evaluation of the same arithmetic
+    expression (independent reference) and, for C09, against Model/PreDispatch.v over the regenerated operator table"""
+    import ast as pyast
+    from fractions import Fraction
+    rng = ctx.rng
+    leaves = ["n_jobs", "1", "2", "3", "4", "8", "1.5", "0.5", "2.5", "0"]
+    ops = ["+", "-", "*", "/", "//", "%", "**"]
+
+    def leaf():
+        x = rng.choice(leaves)
+        return "-" + x if rng.random() < 0.12 else x
+
+    def gen(depth):
+        if depth == 0 or rng.random() < 0.25:
+            return leaf()
+        a, b = gen(depth - 1), gen(depth - 1)
+        s = "%s%s%s" % (a, rng.choice(ops), b)
+        return "(" + s + ")" if rng.random() < 0.5 else s
+    exprs = ["n_jobs", "2*n_jobs", "1.5*n_jobs", "3*n_jobs/2", "1/2*n_jobs", "n_jobs/4*8", "(n_jobs+1)/8*6", "2**n_jobs/2",
+             "-(-n_jobs)", "n_jobs%2+2", "3*n_jobs//2", "n_jobs/0", "2.6*n_jobs", "0.29*100"]
+    exprs += [gen(rng.choice([1, 2, 2, 3])) for _ in range(1500 if quick else 15000)]
+    cases = [(e, n) for e in exprs for n in ((2, 5) if quick else (1, 2, 3, 5))]
+    strings = [e.replace("n_jobs", str(n)) for e, n in cases]
+    rc, out, err = common.run_impl("c09_expr_impl.py", input_text=json.dumps(strings), timeout=600)
+    try:
+        res = json.loads(out.strip().splitlines()[-1])
+    except Exception:  # noqa
+        ctx.violation("pre_dispatch expression stage failed to run: " + err[-300:], {"kind": "pre-dispatch-expr"}, False)
+        return {}
+    nbad = 0
+    agree = 0
+    for s, (real, ref) in zip(strings, res):
+        if real == ref or (real[0] == "e" and ref[0] == "e"):
+            agree += 1
+            continue
+        if nbad < 2:
+            nbad += 1
+            ctx.violation("pre_dispatch=%r: joblib evaluates the expression to %s, Python evaluates it to %s (the number of "
+                          "items taken up front is int() of that value)" % (s, real, ref),
+                          {"kind": "pre-dispatch-expr", "expression": s, "real": real, "reference": ref}, True)
+    cov = {"pre_dispatch_expressions": len(strings), "pre_dispatch_expressions_agreeing_with_python": agree}
+    if prop != "C09":
+        return cov
+    # the model: exact rationals over the regenerated table; compared where the float computation is exact
+    def to_coq(node):
+        if isinstance(node, pyast.Constant):
+            fr = Fraction(str(node.value))
+            return "(EConst (%d # %d))" % (fr.numerator, fr.denominator)
+        if isinstance(node, pyast.UnaryOp) and isinstance(node.op, pyast.USub):
+            return "(ENeg %s)" % to_coq(node.operand)
+        if isinstance(node, pyast.BinOp):
+            o = {pyast.Add: "OAdd", pyast.Sub: "OSub", pyast.Mult: "OMul", pyast.Div: "ODiv", pyast.FloorDiv: "OFloorDiv",
+                 pyast.Mod: "OMod", pyast.Pow: "OPow"}[type(node.op)]
+            return "(EBin %s %s %s)" % (o, to_coq(node.left), to_coq(node.right))
+        raise ValueError(node)
+    sel = [i for i in range(len(strings)) if res[i][0][0] in ("i", "f", "e")]
+    rng.shuffle(sel)
+    sel = sorted(sel[:1200 if quick else 6000])
+    terms = [to_coq(pyast.parse(strings[i], mode="eval").body) for i in sel]
+    req = ("From Coq Require Import QArith ZArith List.\nRequire Import JV.Model.PreDispatch JV.Gen.T_operators.\n"
+           "Import ListNotations.\nOpen Scope Q_scope.")
+    vals = ctx.coq_eval_lines(req, "", ["show_eval src_operators src_neg %s" % t for t in terms], name="c09expr", shard=300)
+    compared = skipped = dis = 0
+    for i, v in zip(sel, vals):
+        m = [int(x) for x in re.findall(r"-?\d+", v.replace("%Z", ""))]
+        real = res[i][0]
+        if real[0] == "e":
+            if m[0] == 1 and real[1] == "ZeroDivisionError":
+                dis += 1
+                if dis <= 1:
+                    ctx.violation("Model/PreDispatch.v gives a value for %r, joblib raises %s" % (strings[i], real[1]),
+                                  {"kind": "correspondence", "correspondence": "Model/PreDispatch.v eval vs joblib._utils.eval_expr",
+                                   "expression": strings[i]}, False)
+            else:
+                skipped += 1          # (overflow / complex results: outside the model)
+            continue
+        if m[0] == 0:
+            skipped += 1              # the model is partial: non-integral exponents, 0 ** negative
+            continue
+        val = Fraction(int(real[1])) if real[0] == "i" else None
+        if real[0] == "f":
+            fl = float.fromhex(real[1])
+            if fl != fl or fl in (float("inf"), float("-inf")):
+                skipped += 1
+                continue
+            val = Fraction(fl)
+        if val != Fraction(m[1], m[2]):
+            skipped += 1              # the float computation was not exact: the rational model does not apply
+            continue
+        compared += 1
+        if int(val) != m[3]:
+            dis += 1
+            if dis <= 1:
+                ctx.violation("pre_dispatch=%r: the model truncates the value to %d, int() gives %d" % (strings[i], m[3], int(val)),
+                              {"kind": "correspondence", "correspondence": "Model/PreDispatch.v pre_amount vs int(eval_expr)",
+                               "expression": strings[i]}, False)
+    cov.update({"pre_dispatch_model_compared": compared, "pre_dispatch_model_not_applicable": skipped,
+                "pre_dispatch_model_disagreements": dis})
+    return cov
+
+
 def seq_path(ctx, quick, prop):
     """Model/ParallelSeq.v against joblib.Parallel when n_jobs resolves to 1 (the sequential fast path)"""
     import m1q_common
@@ -1098,6 +1207,7 @@ def extra_c01(ctx, quick):
     f6_replay(ctx)
     cov = real_sampling(ctx, quick, "C01", 0.0)
     cov.update(seq_path(ctx, quick, "C01"))
+    cov.update(pre_dispatch_stage(ctx, quick, "C01"))
     cov.update(lock_probe(ctx, quick, "C01"))
     cov.update(auto_batch(ctx, quick))
     cov.update(sync_backend(ctx, quick, "C01", "c01"))
@@ -1115,6 +1225,7 @@ def extra_c04(ctx, quick):
 
 def extra_c09(ctx, quick):
     cov = lock_probe(ctx, quick, "C09")
+    cov.update(pre_dispatch_stage(ctx, quick, "C09"))
     cov.update(real_sampling(ctx, quick, "C09", 0.7))
     cov.update(seq_path(ctx, quick, "C09"))
     cov.update(sync_backend(ctx, quick, "C09", "c04", 0.5))
